@@ -90,6 +90,25 @@ def default_call(contract, inputs):
     return fn(**inputs)
 
 
+def eval_on_inputs(contract, inputs, clause):
+    """native value of a clause over the ENTRY state of a case (used for known-finding classes)"""
+    prep = getattr(contract, "native_prepare", None)
+    if prep is not None:
+        inputs = prep(copy.deepcopy(inputs))
+    env = base_env(contract, copy.deepcopy(inputs))
+    env["__oldeval__"] = lambda s, loc=None: eval(compile_clause(s), dict(env, **(loc or {})))
+    try:
+        return bool(eval(compile_clause(clause), env))
+    except Exception:
+        return False
+    finally:
+        root = inputs.get("__root__") if isinstance(inputs, dict) else None
+        if root:
+            import shutil
+
+            shutil.rmtree(root, ignore_errors=True)
+
+
 def run_case(contract, inputs, only_label=None):
     """Run the real function on ``inputs`` (dict) and evaluate the contract natively.
     Returns dict(status='pass'|'fail'|'pre-false'|'error', failed=[labels], observed=...)."""
